@@ -250,6 +250,28 @@ LoopDiagGames ==
             pout \in { <<Tr("", 9, 5), Tr("", 1, 4)>>, <<Tr("", 1, 5), Tr("", 1, 4)>>, <<Tr("", 1, 5), Tr("", 9, 4)>> },
             r \in { <<1, 3, 1>>, <<0, 0, 2>>, <<1, 9, 0>>, <<2, 1, 1>> } }
 
+(* ZeroW: probabilistic transitions of weight 0 (never taken, but present):  *)
+(* into dead states, into the final state, next to live ones.                *)
+(*   1 chooser ; 2 chance with a zero-weight edge ; 3 live ; 4 dead ; 5 lose ; 6 win *)
+ZeroWGames ==
+    LET mk(o, row, r) ==
+          [n |-> 6,
+           owner  |-> <<o, PR, PR, PR, PR, PR>>,
+           reward |-> <<0, r, 2, 1, 0, 0>>,
+           tr |-> << IF o = PR THEN <<Tr("", 1, 2), Tr("", 1, 3)>> ELSE <<Tr("a", 0, 2), Tr("b", 0, 3)>>,
+                     row,
+                     <<Tr("", 1, 6), Tr("", 1, 5)>>,
+                     <<Tr("", 1, 5), Tr("", 0, 6)>>,
+                     <<Tr("", 1, 5)>>, <<Tr("", 1, 6)>> >>,
+           final |-> <<6>>]
+    IN  { mk(o, row, r) : o \in {P1, P2, PR}, r \in {0, 1},
+            row \in { <<Tr("", 0, 4), Tr("", 3, 3), Tr("", 2, 1)>>,     \* zero edge into a dead state, first
+                      <<Tr("", 1, 6), Tr("", 0, 4)>>,                    \* ... last, everything else live
+                      <<Tr("", 1, 3), Tr("", 0, 5), Tr("", 1, 4)>>,     \* ... between, with a really dead one
+                      <<Tr("", 0, 6), Tr("", 1, 4)>>,                    \* zero edge into the final state: value 0
+                      <<Tr("", 0, 6), Tr("", 1, 3)>>,
+                      <<Tr("", 2, 3), Tr("", 0, 3), Tr("", 0, 4)>> } }
+
 (* BigRew: rewards in the millions whose relative difference is tiny but    *)
 (* whose absolute difference is far above the tolerance.                    *)
 BigRewGames ==
@@ -306,6 +328,9 @@ TieGames ==
                 << <<Tr("", 1, 7), Tr("", 7, 7), Tr("", 2, 6)>>,  <<Tr("", 8, 7), Tr("", 2, 6)>> >>,   \* 0.1+0.7 vs 0.8
                 << <<Tr("", 1, 7), Tr("", 2, 7), Tr("", 7, 6)>>,  <<Tr("", 3, 7), Tr("", 7, 6)>> >>,   \* 0.1+0.2 vs 0.3
                 << <<Tr("", 2, 7), Tr("", 1, 6), Tr("", 7, 7)>>,  <<Tr("", 1, 6), Tr("", 9, 7)>> >>,   \* 0.2+0.7 vs 0.9
+                \* both reach the (rewarded) state 4 with 2/3: reward ties at values that round up
+                << <<Tr("", 2, 4), Tr("", 1, 6)>>,                <<Tr("", 4, 4), Tr("", 2, 6)>> >>,
+                << <<Tr("", 1, 4), Tr("", 1, 4), Tr("", 1, 6)>>,  <<Tr("", 2, 4), Tr("", 1, 6)>> >>,
                 << <<Tr("", 1, 7)>>,                              <<Tr("", 2, 7), Tr("", 3, 7)>> >>,   \* both 1
                 << <<Tr("", 1, 6)>>,                              <<Tr("", 2, 6), Tr("", 1, 6)>> >> }  \* both 0
         Zrow == { <<Tr("", 1, 6)>>, <<Tr("", 1, 7)>>, <<Tr("", 1, 7), Tr("", 9, 6)>>, <<Tr("", 9, 7), Tr("", 1, 6)>> }
